@@ -1164,7 +1164,7 @@ def genhkl_base(unit_cell, sysconditions, sintlmin, sintlmax, crystal_system='tr
 
     # Triclinic : Laue group -1
     if Laue_class == '-1':
-        logger.debug('Laue class : -1 %s'%unit_cell)
+        logger.debug('Laue class : -1 %s', unit_cell)
         segm = n.array([[[ 0, 0,  0], [ 1, 0, 0], [ 0, 1, 0], [ 0, 0,  1]],
                         [[-1, 0,  1], [-1, 0, 0], [ 0, 1, 0], [ 0, 0,  1]],
                         [[-1, 1,  0], [-1, 0, 0], [ 0, 1, 0], [ 0, 0, -1]],
@@ -1178,7 +1178,7 @@ def genhkl_base(unit_cell, sysconditions, sintlmin, sintlmax, crystal_system='tr
     # Monoclinic : Laue group 2/M 
     # unique b        
     if Laue_class == '2/m':
-        logger.debug('Laue class : 2/m %s'%unit_cell)
+        logger.debug('Laue class : 2/m %s', unit_cell)
         segm = n.array([[[ 0, 0,  0], [ 1, 0, 0], [ 0, 1, 0], [ 0, 0,  1]],
                         [[-1, 0,  1], [-1, 0, 0], [ 0, 1, 0], [ 0, 0,  1]]])
 
@@ -1213,7 +1213,7 @@ def genhkl_base(unit_cell, sysconditions, sintlmin, sintlmax, crystal_system='tr
 
     # Laue group : -3M1
     if Laue_class == '-3m1':
-        logger.debug('Laue class : -3m1 (hex) %s'%unit_cell)
+        logger.debug('Laue class : -3m1 (hex) %s', unit_cell)
         if unit_cell[4]==unit_cell[5]:
             logger.debug('#############################################################')
             logger.debug('# Are you using a rhombohedral cell in a hexagonal setting? #')
@@ -1223,7 +1223,7 @@ def genhkl_base(unit_cell, sysconditions, sintlmin, sintlmax, crystal_system='tr
 
     # Laue group : -31M
     if Laue_class == '-31m':
-        logger.debug('Laue class : -31m (hex) %s'%unit_cell)
+        logger.debug('Laue class : -31m (hex) %s', unit_cell)
         if unit_cell[4]==unit_cell[5]:
             logger.debug('#############################################################')
             logger.debug('# Are you using a rhombohedral cell in a hexagonal setting? #')
@@ -1233,7 +1233,7 @@ def genhkl_base(unit_cell, sysconditions, sintlmin, sintlmax, crystal_system='tr
 
     # Laue group : -3
     if Laue_class == '-3' and cell_choice!='rhombohedral':
-        logger.debug('Laue class : -3 (hex) %s'%unit_cell)
+        logger.debug('Laue class : -3 (hex) %s', unit_cell)
         if unit_cell[4]==unit_cell[5]:
             logger.debug('#############################################################')
             logger.debug('# Are you using a rhombohedral cell in a hexagonal setting? #')
@@ -1245,7 +1245,7 @@ def genhkl_base(unit_cell, sysconditions, sintlmin, sintlmax, crystal_system='tr
     # RHOMBOHEDRAL
     # Laue group : -3M
     if Laue_class == '-3m' and cell_choice=='rhombohedral':
-        logger.debug('Laue class : -3m (Rhom) %s'%unit_cell)
+        logger.debug('Laue class : -3m (Rhom) %s', unit_cell)
         if unit_cell[4]!=unit_cell[5]:
             logger.debug('#############################################################')
             logger.debug('# Are you using a hexagonal cell in a rhombohedral setting? #')
@@ -1255,7 +1255,7 @@ def genhkl_base(unit_cell, sysconditions, sintlmin, sintlmax, crystal_system='tr
 
     # Laue group : -3
     if Laue_class == '-3' and cell_choice=='rhombohedral':
-        logger.debug('Laue class : -3 (Rhom) %s'%unit_cell)
+        logger.debug('Laue class : -3 (Rhom) %s', unit_cell)
         if unit_cell[4]!=unit_cell[5]:
             logger.debug('#############################################################')
             logger.debug('# Are you using a hexagonal cell in a rhombohedral setting? #')
